@@ -6,7 +6,7 @@
    packet), so no theorem here is vacuous because of a contradictory universal premise. *)
 From VT Require Import Base.PyStrProofs Codec.JsonProofs Codec.PacketProofs Codec.SpecProofs.
 From VT Require Import Codec.Packet Codec.SpecCodec Check.C01Check Check.C01CheckProofs.
-From VT Require Import Codec.MsgPack E2E.Pipe.
+From VT Require Import Codec.MsgPack E2E.Pipe Check.C02Check.
 From Coq Require Import Lia ZifyBool ZifyN.
 Open Scope N_scope.
 
@@ -150,4 +150,131 @@ Proof.
     unfold decode. cbn [truthy negb]. rewrite Hlv. cbn [List.length].
     replace (PInt t) with (PInt (Z.of_N (Z.to_N t))) by (f_equal; lia).
     apply decode_str_nonbin; [lia|exact Hns|exact Hid|exact Hjs|exact Hlj].
+Qed.
+
+(* ================================================================================== *)
+(* 4. the domain of C02 is inside the domain of C01                                     *)
+(* ================================================================================== *)
+Lemma wf_list_forallb l : wf_list l = forallb wf_data l.
+Proof. induction l as [|x l IH]; [reflexivity|]. cbn [wf_list forallb]. fold wf_list. rewrite IH. reflexivity. Qed.
+
+Lemma wf_payload_pack data : wf_payload data = true -> forallb wf_data (pack data) = true.
+Proof.
+  destruct data; cbn [wf_payload pack forallb]; intro H; try reflexivity;
+    try (rewrite H; reflexivity); try exact H; try discriminate.
+Qed.
+
+Lemma wf_nsname_wf_ns ns : wf_nsname ns = true -> wf_ns (Some ns) = true.
+Proof.
+  destruct ns as [|c r]; cbn [wf_nsname wf_ns]; [discriminate|].
+  destruct c as [|p]; [discriminate|].
+  repeat (destruct p as [p|p|]; try discriminate).
+  intro H. apply andb_true_iff in H as [H _]. exact H.
+Qed.
+
+Lemma wf_nsname_shape ns : wf_nsname ns = true ->
+  exists r, ns = 47 :: r /\ existsb (N.eqb 63) r = false.
+Proof.
+  destruct ns as [|c r]; cbn [wf_nsname]; [discriminate|].
+  destruct c as [|p]; [discriminate|].
+  repeat (destruct p as [p|p|]; try discriminate).
+  intro H. apply andb_true_iff in H as [_ H]. apply negb_true_iff in H. exists r. split; [reflexivity|exact H].
+Qed.
+
+(* the namespace the receiver reports is the one the message was sent on *)
+Lemma ns_received ns : wf_nsname ns = true -> ns_or_default (ns_dec (Some ns)) = ns.
+Proof.
+  intro H. destruct (wf_nsname_shape ns H) as (r & -> & Hq). cbn [ns_dec].
+  destruct (str_eqb (47 :: r) [47]) eqn:E.
+  - apply str_eqb_eq in E. inversion E; subst. reflexivity.
+  - unfold strip_query.
+    assert (F : find 63 (47 :: r) = None).
+    { apply find_absent. intros x [Hx|Hx]; [subst x; discriminate|].
+      apply (existsb_eqb_false 63 r Hq x Hx). }
+    rewrite F. reflexivity.
+Qed.
+
+Lemma msg_wf_input m : msg_wf m = true ->
+  wf_input (msg_type m) (msg_payload m) (Some (msg_ns m)) (msg_id m) = true /\
+  wf_nsname (msg_ns m) = true /\ wf_data (msg_payload m) = true.
+Proof.
+  destruct m as [ev data ns id|r ns id]; cbn [msg_wf msg_type msg_payload msg_ns msg_id]; intro H;
+    apply andb_true_iff in H as [H Hid]; apply andb_true_iff in H as [Hd Hns];
+    pose proof (wf_payload_pack _ Hd) as Hp.
+  - assert (Hw : wf_data (PList (PStr ev :: pack data)) = true).
+    { rewrite wf_PList, wf_list_forallb. cbn [forallb wf_data]. exact Hp. }
+    split; [|split; [exact Hns|exact Hw]].
+    unfold wf_input. rewrite (wf_nsname_wf_ns _ Hns), Hid, Hw. reflexivity.
+  - assert (Hw : wf_data (PList (pack r)) = true).
+    { rewrite wf_PList, wf_list_forallb. exact Hp. }
+    split; [|split; [exact Hns|exact Hw]].
+    unfold wf_input. rewrite (wf_nsname_wf_ns _ Hns), Hid, Hw. reflexivity.
+Qed.
+
+(* ================================================================================== *)
+(* 5. one message through the default serializer                                        *)
+(* ================================================================================== *)
+Definition pieces (f : str) (payload : pv) : list pv := PStr f :: map PBytes (leaves payload).
+
+Lemma rx_packet_default loads mloads mdumps t payload ns id :
+  (t = 2 \/ t = 3)%Z ->
+  wf_input t payload (Some ns) id = true ->
+  N.of_nat (List.length (leaves payload)) < 10000000000 ->
+  (forall s, json_dumps (subst payload 0) = Ok s -> loads s = Ok (subst payload 0)) ->
+  let q := mkPacket (PInt (promoted t payload None)) (ns_dec (Some ns)) id payload in
+  exists f,
+    (p <- ctor true t payload (Some ns) id None ;; encode_frames mdumps SerDefault p) = Ok (pieces f payload) /\
+    rx_run loads mloads C2S SerDefault None (pieces f payload) =
+      (evs <- (if (t =? 2)%Z then server_dispatch_event q else server_dispatch_ack q) ;; Ok (None, evs)).
+Proof.
+  intros Ht Hwf Hcnt Hl q.
+  assert (Hd : wf_data payload = true).
+  { unfold wf_input in Hwf. repeat rewrite andb_true_iff in Hwf. tauto. }
+  destruct (frame_exact loads t payload (Some ns) id Hwf (fun _ => Ht) Hcnt Hl) as (p & f & Hc & He & Hdec).
+  exists f. unfold pieces. split.
+  - rewrite Hc. cbn [bind encode_frames]. rewrite He. cbn [bind]. unfold pieces_of. cbn [fst snd].
+    destruct (has_bytes payload) eqn:Hb; [reflexivity|]. rewrite (nobytes_leaves _ Hb). reflexivity.
+  - rewrite rx_run_cons. cbn [rx_step]. unfold server_rx_step, rx_step_with. cbn [rx_decode].
+    rewrite Hdec. cbn [bind rp ptype]. unfold promoted in *.
+    destruct (has_bytes payload) eqn:Hb.
+    + (* binary: header stored, attachments complete it *)
+      assert (T : type_is (mkPacket (PInt (t + 3)) (ns_dec (Some ns)) id (subst payload 0)) EVENT = false /\
+                  type_is (mkPacket (PInt (t + 3)) (ns_dec (Some ns)) id (subst payload 0)) ACK = false /\
+                  (type_is (mkPacket (PInt (t + 3)) (ns_dec (Some ns)) id (subst payload 0)) BINARY_EVENT ||
+                   type_is (mkPacket (PInt (t + 3)) (ns_dec (Some ns)) id (subst payload 0)) BINARY_ACK) = true).
+      { destruct Ht as [-> | ->]; repeat split; reflexivity. }
+      destruct T as (T1 & T2 & T3). rewrite T1, T2, T3. cbn [bind app].
+      pose proof (bytes_leaves _ Hb) as Hne.
+      set (r0 := mkR (mkPacket (PInt (t + 3)) (ns_dec (Some ns)) id (subst payload 0))
+                     (N.of_nat (List.length (leaves payload))) []).
+      assert (Hadd : add_all r0 (map PBytes (leaves payload)) =
+                     Ok (mkR (mkPacket (PInt (t + 3)) (ns_dec (Some ns)) id payload)
+                             (N.of_nat (List.length (leaves payload))) (map PBytes (leaves payload)),
+                         last_only (List.length (map PBytes (leaves payload))))).
+      { rewrite (add_all_complete _ []); [|destruct (leaves payload); [contradiction|discriminate]|reflexivity|].
+        - cbn [r0 rp pdata ptype pns pid rcount app].
+          pose proof (recon_subst payload (wf_ph_free _ Hd) [] []) as R.
+          cbn [List.length app] in R. rewrite app_nil_r in R. rewrite R. reflexivity.
+        - cbn [r0 rcount List.length]. rewrite map_length. reflexivity. }
+      rewrite (rx_attachments loads mloads SerDefault _ r0 _ ); [| |exact Hadd].
+      * cbn [rp]. subst q.
+        destruct Ht as [-> | ->]; cbn [Z.eqb Z.add];
+          match goal with |- context [type_is ?p BINARY_EVENT] =>
+            let b := eval vm_compute in (type_is (mkPacket (ptype p) None None PNone) BINARY_EVENT) in
+            change (type_is p BINARY_EVENT) with b end;
+          cbv iota;
+          match goal with |- context [bind ?X _] => destruct X as [evs|e] end; reflexivity.
+      * destruct (leaves payload); [contradiction|discriminate].
+    + (* not binary: delivered at once *)
+      pose proof (nobytes_leaves _ Hb) as Hlv. rewrite (noleaves_subst _ Hlv), Hlv. cbn [map].
+      subst q. destruct Ht as [-> | ->].
+      * change (type_is (mkPacket (PInt 2) (ns_dec (Some ns)) id payload) EVENT) with true. cbv iota.
+        cbn [Z.eqb]. cbv iota.
+        destruct (server_dispatch_event (mkPacket (PInt 2) (ns_dec (Some ns)) id payload)) as [evs|e];
+          cbn [bind rx_run]; [rewrite app_nil_r|]; reflexivity.
+      * change (type_is (mkPacket (PInt 3) (ns_dec (Some ns)) id payload) EVENT) with false.
+        change (type_is (mkPacket (PInt 3) (ns_dec (Some ns)) id payload) ACK) with true. cbv iota.
+        cbn [Z.eqb]. cbv iota.
+        destruct (server_dispatch_ack (mkPacket (PInt 3) (ns_dec (Some ns)) id payload)) as [evs|e];
+          cbn [bind rx_run]; [rewrite app_nil_r|]; reflexivity.
 Qed.
